@@ -13,7 +13,10 @@ package main
 //              (Modules, typeDictionary, identityDictionary); WRITES are recorded for every struct type,
 //              unless the written object is provably local (a struct-valued local, or a local pointer that
 //              was bound to &T{..}/new(T) in this function).
-//   pkg.v      package-level variable v (reads and writes; map/slice contents are merged with the variable)
+//   pkg.v      package-level variable v (reads and writes; map/slice contents are merged with the variable).
+//              A method call v.M(..) on a variable whose type is imported (sync.Map, atomic.Value ...) is a
+//              WRITE unless M is known to be read-only (Load, Range, Match* ...): a process-wide memo is
+//              shared state written during processing even if the type synchronises internally
 //   pkg.v[]    an element object of the package-level table v reached through a local alias
 //              (`x := v[k]`, `for _, x := range v`) -- writes only
 //   local.x / deref  writes through a local map/slice/pointer of unknown origin
@@ -1149,7 +1152,15 @@ func (w *lkWalk) call(c *ast.CallExpr) {
 	case *ast.SelectorExpr:
 		sel := info.Selections[f]
 		if sel == nil {
-			return // pkg.Func of an import, or unresolved
+			// pkg.Func of an import, or a method of a value whose type comes from an import (opaque
+			// here: sync.Map, atomic.Value, bytes.Buffer, *regexp.Regexp ...).  Such a method may
+			// change its receiver: when the receiver is (part of) a shared location that is a WRITE,
+			// whether or not the type synchronises internally -- a process-wide memo is shared state
+			// even when it is race free.  Only methods known to leave the receiver alone are reads.
+			if !opaqueReadOnly(f.Sel.Name) {
+				w.opaqueWrite(f.X)
+			}
+			return
 		}
 		switch sel.Kind() {
 		case types.MethodVal, types.MethodExpr:
@@ -1186,6 +1197,62 @@ func (w *lkWalk) addParams(ft *ast.FuncType) {
 		for _, id := range f.Names {
 			if obj := w.g.info.Defs[id]; obj != nil {
 				w.params[obj] = true
+			}
+		}
+	}
+}
+
+// opaqueReadOnly: methods of imported types that are known not to modify their receiver
+// (sync.Map Load/Range, *regexp.Regexp matching, Len/String/Error ...).  Anything else counts as a write.
+func opaqueReadOnly(m string) bool {
+	switch m {
+	case "Load", "Range", "Len", "Cap", "String", "Error", "Bytes", "NumSubexp", "SubexpNames", "SubexpIndex",
+		"Split", "LiteralPrefix", "Kind", "Type", "Name", "Elem", "Field", "NumField", "Interface", "IsNil", "IsValid":
+		return true
+	}
+	for _, p := range []string{"Match", "Find", "ReplaceAll", "Expand"} {
+		if strings.HasPrefix(m, p) {
+			return true
+		}
+	}
+	return false
+}
+
+// opaqueWrite: recv.M(...) with M possibly mutating and the type of recv imported.  Recorded when recv is a
+// package-level variable, a field of a package struct that is not provably private, or reached through them.
+func (w *lkWalk) opaqueWrite(recv ast.Expr) {
+	recv = unparen(recv)
+	if u, ok := recv.(*ast.UnaryExpr); ok && u.Op == token.AND {
+		recv = unparen(u.X)
+	}
+	switch x := rootOf(recv).(type) {
+	case *ast.Ident:
+		if _, isPkg := w.g.info.Uses[x].(*types.PkgName); isPkg {
+			return // pkg.Func(...)
+		}
+	}
+	switch x := recv.(type) {
+	case *ast.Ident:
+		if v, ok := w.g.info.Uses[x].(*types.Var); ok && v.Parent() == w.g.pkg.Scope() {
+			w.wtgt[x] = "pkg." + v.Name()
+		}
+	case *ast.SelectorExpr, *ast.IndexExpr:
+		if _, isSel := recv.(*ast.SelectorExpr); isSel {
+			if sel := w.g.info.Selections[recv.(*ast.SelectorExpr)]; sel == nil || sel.Kind() != types.FieldVal {
+				return
+			}
+			if v, ok := w.g.info.Selections[recv.(*ast.SelectorExpr)].Obj().(*types.Var); ok {
+				if _, isMu := w.g.mutexField[v]; isMu {
+					return
+				}
+			}
+		}
+		_ = x
+		w.markWrite(recv)
+		// an element / field of a package-level table: also a write of the table
+		if id := identOf(rootOf(recv)); id != nil {
+			if v, ok := w.g.info.Uses[id].(*types.Var); ok && v.Parent() == w.g.pkg.Scope() {
+				w.wtgt[id] = "pkg." + v.Name()
 			}
 		}
 	}
